@@ -80,6 +80,9 @@ Inductive c17case :=
         (events : list zrec) (expect : res bspec)
 | CContract (m : N) (full : option (bspec * bool)) (ans : res (bspec * bool * bool))
 | CSpecSum (s : bspec) (len : N) (adler : N)
+(* a history of decompress calls on one model object: streams in call order, every
+   recorded zlib call of the whole history, the verdicts in call order *)
+| CHist (streams : list bspec) (events : list zrec) (expect : list (res bspec))
 (* one perform_encrypt on a message object: zlib.compress answer [zc] (if called),
    the plaintext argument recorded at enc.encrypt, obj.plaintext afterwards *)
 | CEncTail (allowed : option (list string)) (zip : option string) (p : bspec)
@@ -102,6 +105,18 @@ Definition oracle_of (events : list zrec) : zoracle := fun w d m =>
       if (wb =? wbits_of w)%Z && (m' =? Z.of_N m)%Z && beqb (bs_eval d') d
       then eval_ans ans else Err EOracleMiss
   | _ => Err EOracleMiss
+  end.
+
+(* the recorded answers of a whole history: the FIRST recorded call with the same
+   (wbits, data, max_length) answers — a later call on the same stream that was
+   answered differently in the implementation shows up as a disagreement *)
+Fixpoint oracle_multi (events : list zrec) (w : bool) (d : bytes) (m : N) : res zans :=
+  match events with
+  | [] => Err EOracleMiss
+  | RInflate wb d' m' ans :: rest =>
+      if (wb =? wbits_of w)%Z && (m' =? Z.of_N m)%Z && beqb (bs_eval d') d
+      then eval_ans ans else oracle_multi rest w d m
+  | _ :: rest => oracle_multi rest w d m
   end.
 
 Definition ev_match (e : ev) (r : zrec) : bool :=
@@ -136,6 +151,11 @@ Definition c17_check (c : c17case) : bool :=
                 (eval_ans ans)
   | CSpecSum s len adler =>
       let b := bs_eval s in (blen b =? len) && (adler32 b =? adler)
+  | CHist streams events expect =>
+      list_eqb (res_eqb beqb) (decompress_seq (oracle_multi events) (map bs_eval streams))
+               (map eval_res expect) &&
+      (length (inflates events) =? length streams)%nat &&
+      forallb (fun e => match e with RInflate _ _ _ _ => true | _ => false end) (inflates events)
   | CEncTail allowed zip p zc compressed enc_arg after =>
       let pb := bs_eval p in let zb := bs_eval zc in
       let obj := {| em_plaintext := pb; em_zip := zip; em_ciphertext := []; em_tag := [] |} in
@@ -164,6 +184,9 @@ Definition c17_show (c : c17case) : res (N * N) * nat :=
       (sum_res r, length t)
   | CContract m full ans => (sum_res (match eval_ans ans with Ok (x, _, _) => Ok x | Err e => Err e end), 0%nat)
   | CSpecSum s _ _ => (sum_res (Ok (bs_eval s)), 0%nat)
+  | CHist streams events _ =>
+      (sum_res (match decompress_seq (oracle_multi events) (map bs_eval streams) with
+                | r :: _ => r | [] => Err EOracleMiss end), length streams)
   | CEncTail allowed zip p zc _ _ _ =>
       let pb := bs_eval p in let zb := bs_eval zc in
       let obj := {| em_plaintext := pb; em_zip := zip; em_ciphertext := []; em_tag := [] |} in
